@@ -11,6 +11,7 @@ mod c07;
 mod c08;
 mod c09;
 mod c14;
+mod c15;
 mod c16;
 mod c17;
 mod c18;
@@ -57,6 +58,7 @@ fn main() {
         "C08" => c08::run(tier, replay),
         "C09" => c09::run(tier, replay),
         "C14" => c14::run(tier, replay),
+        "C15" => c15::run(tier, replay),
         "C16" => c16::run(tier, replay),
         "C17" => c17::run(tier, replay),
         "C18" => c18::run_check(tier, replay),
